@@ -16,7 +16,7 @@ from __future__ import annotations
 
 import ast
 
-from ..astmatch import alternatives, resolve
+from ..astmatch import alternatives, guards, resolve
 from ..cfg import CFG
 from ..dtab import Unsupported, _cmp
 from ..linform import linform
@@ -277,6 +277,12 @@ def r13_4(ctx: Ctx) -> None:
                 n_app += 1
                 _judge_prefix_sums(ctx, fi, e[5], idx, ps_form, pages_param=[a.arg for a in fi.node.args.args][1] if len(fi.node.args.args) > 1 else "pages")
                 continue
+            if isinstance(idx, GenList) and idx.filtered:
+                n_app += 1
+                _judge_filtered_starts(ctx, fi, e[5], idx)
+                continue
+            if isinstance(idx, GenList) and idx.origin is not None:
+                idx = idx.origin                      # the list filled by the page loop: judge what the loop appends
             if not isinstance(idx, list) or isinstance(idx, GenList):
                 ctx.gap("R13.4", f"_apply_data_post_processing: page start indices `{path_of(idx)[:50]}` are not a list built in the function")
                 continue
@@ -373,6 +379,23 @@ def r13_4(ctx: Ctx) -> None:
     ctx.floor("R13.4", 3)
 
 
+def _judge_filtered_starts(ctx: Ctx, fi, node, idx) -> None:
+    """the page start indices are a FILTERED selection of candidate rows: a filter that only bounds the index is harmless, a filter that looks at the data
+    omits page starts depending on the values"""
+    conj = []
+    for c in idx.ifs:
+        conj.extend(c.values if isinstance(c, ast.BoolOp) and isinstance(c.op, ast.And) else [c])
+    data_dep = [c for c in conj if not (isinstance(c, ast.Compare) and all(isinstance(o, (ast.Lt, ast.LtE, ast.Gt, ast.GtE)) for o in c.ops)
+                                        and not any(isinstance(x, ast.Subscript) for x in ast.walk(c)))]
+    ctx.instance("R13.4", fi.where(node), f"page start indices = filtered selection `{path_of(idx)[:80]}` under {[unparse(c)[:50] for c in conj]}")
+    if data_dep:
+        ctx.violation("R13.4", fi.short, "page_start_indices filtered by " + "; ".join(unparse(c)[:50] for c in data_dep)[:120], fi.where(node),
+                      f"a page start is left out of the rows whose context is restored when `{unparse(data_dep[0])[:80]}` does not hold: context must be restored at the "
+                      "first row of EVERY page after the first (a suppressed higher-level value is otherwise missing at the top of the page)")
+    else:
+        ctx.gap("R13.4", f"_apply_data_post_processing: page start indices are a bounded selection `{path_of(idx)[:60]}` whose candidates were not re-identified")
+
+
 def _neg_int(x):
     return isinstance(x, int) and not isinstance(x, bool) and x < 0
 
@@ -408,9 +431,15 @@ def _prefix_sum_form(v):
 def _judge_prefix_sums(ctx: Ctx, fi, node, idx, form, pages_param: str) -> None:
     seq, has_init, init, front, d_in, back = form
     ctx.instance("R13.4", fi.where(node), f"page start indices = prefix sums `{path_of(idx)[:90]}`")
-    ok_seq = isinstance(seq, GenList) and len(seq) == 1 and not seq.filtered and len(seq.sources) == 1 and isinstance(seq.sources[0], Init) \
-        and seq.sources[0].path == pages_param and isinstance(seq[0], Sym) and seq[0].path.startswith("∀") and seq[0].path.endswith(".data.height") \
-        and seq[0].path.split("∈", 1)[1] == pages_param + ".data.height"
+    src = seq.sources[0] if isinstance(seq, GenList) and len(seq.sources) == 1 else None
+    if isinstance(src, SliceSym) and src.lo in (None, 0) and _neg_int(src.hi) and not d_in:
+        d_in = -src.hi                                  # heights of pages[:-d]: the same as dropping the last d heights
+        src_path, src = src.path, src.base
+    else:
+        src_path = path_of(src)
+    ok_seq = isinstance(seq, GenList) and len(seq) == 1 and not seq.filtered and isinstance(src, Init) \
+        and src.path == pages_param and isinstance(seq[0], Sym) and seq[0].path.startswith("∀") and seq[0].path.endswith(".data.height") \
+        and seq[0].path.split("∈", 1)[1] == src_path + ".data.height"
     if not ok_seq:
         ctx.gap("R13.4", f"_apply_data_post_processing: summands `{path_of(seq)[:60]}` of the prefix sums are not recognisably the heights p.data.height of all pages in order")
         return
@@ -488,6 +517,27 @@ def r13_5_6(ctx: Ctx) -> None:
         ctx.violation("R13.5", vfi.short, "0 raises", vfi.where(), "contiguity validation never raises: non-contiguous data is no longer rejected")
     elif len(raises) < 3:
         ctx.gap("R13.5", f"validate_data_sorting: {len(raises)} raise statement(s) re-identified (first level / deeper levels / missing columns expected)")
+    # every level is scanned: the per-level loop may not be left / a level may not be skipped on the word of a second, data-dependent criterion
+    lvl = [lp for lp in walk_no_nested(vfi.node) if isinstance(lp, ast.For) and any(isinstance(x, ast.Raise) for x in ast.walk(lp))]
+    lvl = [lp for lp in lvl if not any(m is not lp and any(x is lp for x in ast.walk(m)) for m in lvl)]
+    harmless = {"len", "is_empty", "isinstance", "bool"}
+    for lp in lvl:
+        inside = {id(x) for x in ast.walk(lp)}
+        for n in ast.walk(lp):
+            if not isinstance(n, (ast.Continue, ast.Break, ast.Return)):
+                continue
+            if isinstance(n, (ast.Continue, ast.Break)) and next((a for a in _anc(n, vfi.node) if isinstance(a, (ast.For, ast.While))), None) is not lp:
+                continue
+            for test, pol in guards(n, vfi.node):
+                if id(test) not in inside:
+                    continue
+                t = resolve(test, vfi.node)
+                names = {dotted(c.func).split(".")[-1] for c in ast.walk(t) if isinstance(c, ast.Call)}
+                ctx.instance("R13.5", vfi.where(n), f"validate_data_sorting: a level's scan is skipped ({type(n).__name__.lower()}) when `{unparse(t)[:80]}` is {pol}")
+                if names - harmless:
+                    ctx.violation("R13.5", vfi.short, f"level scan skipped under {unparse(t)[:80]}", vfi.where(n),
+                                  f"the contiguity scan of a level is skipped ({type(n).__name__.lower()}) when `{unparse(t)[:100]}` is {pol}: a second, data-dependent criterion "
+                                  f"({', '.join(sorted(names - harmless))}) now decides that data is contiguous and the ValueError of the scan is no longer reached on that path")
     # the whole table is validated: enhance_group_by is called once with the full frame, outside any page loop
     p = pm.func("UnifiedRTFEncoder._apply_data_post_processing")
     calls = [c for c in walk_no_nested(p.node) if isinstance(c, ast.Call) and dotted(c.func).endswith("enhance_group_by")]
@@ -567,6 +617,11 @@ def check(ctx: Ctx) -> None:
     ctx.assume("R13.4 guard on the page index: only a single comparison `index OP integer constant` is accepted (anything else: gap / violation 'guard missing'); such a "
                "predicate over the naturals is monotone or a point predicate, so its values at 0, 1 and 2 determine it everywhere: False at 0 and True at 1 and 2 force "
                "it to be equivalent to index >= 1 (7 is a redundant extra point); this is an exact decision, not a sample")
+    ctx.assume("R13.5 level scan: a continue / break / return that leaves the per-level contiguity scan under a condition computed from the data (any call other than "
+               "len / is_empty / isinstance / bool) is reported: the property requires the ValueError of the scan to be reachable for every non-empty input, and an "
+               "additional contiguity criterion cannot be proved equivalent by this analysis")
+    ctx.assume("R13.4: page start indices selected by a filter that reads the data (equality tests, subscripts) omit page starts depending on values: reported; filters that "
+               "only bound the index are not judged (gap)")
     ctx.assume("R13.4: itertools.accumulate(h) without func= is modelled as the term 'prefix sums of h' (h0, h0+h1, ...; with initial=c preceded by c); slices with literal "
                "bounds ([:-1], [1:-1]) of the summands / of the result are read as dropping that many leading / trailing prefix sums; the verdict is an identity between "
                "index sets for a symbolic number n of pages (result must be P_0..P_(n-2)), nothing is evaluated for a chosen n")
